@@ -21,7 +21,8 @@ RULE = ("random pipelines: series of 2..60 points x x class x y class x strategy
         "ranges x n in 2..64 x {no append, append, append periodic} x target rule {trapezoid, rectangle}; dataset "
         "pipelines: 19 bundled datasets x 6 strategies x n set x 2 rules. non-trivial: matching had to move at least "
         "one interval mean by more than 1e-6 of its scale (or the strategy is piecewise constant, whose rectangle "
-        "means are already right); distinct by (case index | dataset, strategy, n, rule).")
+        "means are already right); distinct by (case index | dataset, strategy, n, rule)."
+        " The factor n is also given as numpy.int64, the default strategy class by omission.")
 REQUIRED_MONITORS = ["c02:interval_means", "c02:block_average"]
 ASSUMPTIONS = ["x strictly increasing; parameters in documented ranges; reference rule = rectangle"]
 NSHARDS = 16
